@@ -46,6 +46,10 @@ func verifDefaultImporter() gotypes.Importer {
 	return verifImp
 }
 
+// VerifParseOrder, if set, chooses the order in which verifParseGo parses the n
+// Go files of the package (name order, placeholder last): a permutation of 0..n-1.
+var VerifParseOrder func(n int) []int
+
 // VerifResult exposes the objects the generated files were emitted from.
 type VerifResult struct {
 	OK            bool
@@ -205,21 +209,36 @@ func (c *context) verifParseGo(pkgPath string, imp gotypes.Importer) bool {
 	}
 	sort.Strings(names)
 
-	var files []*ast.File
-	for _, n := range names {
-		f, err := goparser.ParseFile(c.Fset, filepath.Join(c.Dir, n), nil, goparser.SkipObjectResolution)
+	// The files are handed to the type checker in name order (placeholder
+	// last), as packages.Load does. The order in which they are *parsed*, and
+	// so registered in the FileSet (which fixes how their token.Pos values
+	// compare across files), is the explorer's choice: packages.Load parses in
+	// parallel goroutines and leaves that order to the scheduler.
+	n := len(names) + 1
+	order := make([]int, n)
+	for i := range order {
+		order[i] = i
+	}
+	if VerifParseOrder != nil {
+		if o := VerifParseOrder(n); len(o) == n {
+			order = o
+		}
+	}
+	files := make([]*ast.File, n)
+	for _, i := range order {
+		var f *ast.File
+		var err error
+		if i < len(names) {
+			f, err = goparser.ParseFile(c.Fset, filepath.Join(c.Dir, names[i]), nil, goparser.SkipObjectResolution)
+		} else {
+			f, err = goparser.ParseFile(c.Fset, filepath.Join(c.Dir, parserGenGo), placeholder, goparser.SkipObjectResolution)
+		}
 		if err != nil {
 			c.Errs.GeneralError(err)
 			return false
 		}
-		files = append(files, f)
+		files[i] = f
 	}
-	pf, err := goparser.ParseFile(c.Fset, filepath.Join(c.Dir, parserGenGo), placeholder, goparser.SkipObjectResolution)
-	if err != nil {
-		c.Errs.GeneralError(err)
-		return false
-	}
-	files = append(files, pf)
 
 	c.GoPackagePath = pkgPath
 
